@@ -76,7 +76,7 @@ def snapshot(root):
     for dp, dns, fns in os.walk(root):
         for d in dns:
             p = os.path.join(dp, d)
-            snap[os.path.relpath(p, root)] = ("dir", 0, "", 0)
+            snap[os.path.relpath(p, root)] = ("dir", 0, "", 0) if not os.path.islink(p) else ("link", 0, os.readlink(p), 0)
         for f in fns:
             p = os.path.join(dp, f)
             snap[os.path.relpath(p, root)] = _entry(p)
@@ -84,6 +84,8 @@ def snapshot(root):
 
 
 def _entry(p):
+    if os.path.islink(p):
+        return ("link", 0, os.readlink(p), 0)
     st = os.stat(p)
     with open(p, "rb") as f:
         h = hashlib.sha256(f.read()).hexdigest()
